@@ -375,3 +375,7 @@ V('ix8-no-guard', ['C07'], 'yalafi/handlers.py',
 V('ix9-inline-lang', ['C07'], T2,
   "    main_lang = opts.lang or ''\n    ml = utils.get_txt_pos_ml(toks, main_lang, parms)\n    if opts.repl and main_lang in ml:\n        for part in ml[main_lang]:",
   "    ml = utils.get_txt_pos_ml(toks, opts.lang, parms)\n    if opts.repl and opts.lang in ml:\n        for part in ml[opts.lang]:", 'IX9')
+
+V('pd8-upper-unpinned', ['C01'], 'yalafi/packages/glossaries.py',
+  "        toks[i].txt = toks[i].txt[0].upper()\n        # NB: upper() may lengthen the text ('ß' --> 'SS')\n        toks[i].pos_fix = True\n",
+  "        toks[i].txt = toks[i].txt[0].upper()\n", 'PD8')
